@@ -114,3 +114,101 @@ fn k_pbd_walk_to_grandparent() { walk_contract(301, 2); }
 #[kani::unwind(5)]
 #[kani::stub(alloc::fmt::format, stub_fmt)]
 fn k_pbd_walk_to_root() { walk_contract(999, 3); }
+
+//@use_common
+
+struct NpbNode { body_id: u16, link_index: i16, bones: Vec<(String, [f32; 12])> }
+struct NpbLink { parent: i16, first_child: i16, next_sibling: i16, deformer: u16 }
+fn npb_matrix(seed: f32) -> [f32; 12] { let mut m = [0.0f32; 12]; for (i, v) in m.iter_mut().enumerate() { *v = seed + i as f32 * 0.25; } m }
+/// a deformer file packed by hand: count, items (body id, link index, data offset, 4 pad bytes), links, then one blob per item (bone count, name offsets, padding, 4x3 matrices, names)
+fn npb_file(nodes: &[NpbNode], links: &[NpbLink]) -> Vec<u8> {
+    let count = nodes.len();
+    let tables_end = 4 + count * 12 + links.len() * 8;
+    let mut blobs: Vec<Vec<u8>> = vec![]; let mut offsets = vec![]; let mut at = tables_end;
+    for node in nodes {
+        let n = node.bones.len(); let pad = if n & 1 != 0 { 2 } else { 0 };
+        let strings_start = 4 + n * 2 + pad + n * 48;
+        let mut name_offsets = vec![]; let mut strings: Vec<u8> = vec![];
+        for (name, _) in &node.bones { name_offsets.push((strings_start + strings.len()) as u16); strings.extend_from_slice(name.as_bytes()); strings.push(0); }
+        while (strings_start + strings.len()) % 4 != 0 { strings.push(0); }
+        let mut blob: Vec<u8> = vec![];
+        blob.extend_from_slice(&(n as i32).to_le_bytes());
+        for o in &name_offsets { blob.extend_from_slice(&o.to_le_bytes()); }
+        if pad != 0 { blob.extend_from_slice(&0u16.to_le_bytes()); }
+        for (_, m) in &node.bones { for v in m { blob.extend_from_slice(&v.to_le_bytes()); } }
+        blob.extend_from_slice(&strings);
+        offsets.push(at); at += blob.len(); blobs.push(blob);
+    }
+    let mut out: Vec<u8> = vec![];
+    out.extend_from_slice(&(count as i32).to_le_bytes());
+    for (node, off) in nodes.iter().zip(&offsets) { out.extend_from_slice(&node.body_id.to_le_bytes()); out.extend_from_slice(&node.link_index.to_le_bytes()); out.extend_from_slice(&(*off as i32).to_le_bytes()); out.extend_from_slice(&[0u8; 4]); }
+    for l in links { out.extend_from_slice(&l.parent.to_le_bytes()); out.extend_from_slice(&l.first_child.to_le_bytes()); out.extend_from_slice(&l.next_sibling.to_le_bytes()); out.extend_from_slice(&l.deformer.to_le_bytes()); }
+    for b in &blobs { out.extend_from_slice(b); }
+    out
+}
+/// forest: parents[i] = index of the parent node or usize::MAX; the link of node i is stored at position perm[i] of the link table
+fn npb_forest(parents: &[usize], perm: &[usize], nbones: &[usize]) -> (Vec<NpbNode>, Vec<NpbLink>) {
+    let n = parents.len();
+    let nodes: Vec<NpbNode> = (0..n).map(|i| NpbNode { body_id: (101 + 100 * i) as u16, link_index: perm[i] as i16, bones: (0..nbones[i]).map(|b| (format!("j_bone_{i}_{b}"), npb_matrix((i * 100 + b * 10) as f32))).collect() }).collect();
+    let mut links: Vec<NpbLink> = (0..n).map(|_| NpbLink { parent: -1, first_child: -1, next_sibling: -1, deformer: 0 }).collect();
+    for i in 0..n {
+        let kids: Vec<usize> = (0..n).filter(|k| parents[*k] == i).collect();
+        let sibs: Vec<usize> = (0..n).filter(|k| parents[*k] == parents[i]).collect();
+        let pos = sibs.iter().position(|k| *k == i).unwrap();
+        links[perm[i]] = NpbLink { parent: if parents[i] == usize::MAX { -1 } else { perm[parents[i]] as i16 }, first_child: kids.first().map(|k| perm[*k] as i16).unwrap_or(-1),
+                                   next_sibling: sibs.get(pos + 1).map(|k| perm[*k] as i16).unwrap_or(-1), deformer: i as u16 };
+    }
+    (nodes, links)
+}
+
+//@unit props=C16 label=B tier=quick native=1 fn=pbd::PreBoneDeformer::{from_existing,get_deform_matrices} bound="by execution: 4 forests of 1..7 body ids (chains, a two-level tree, two roots) x 3 orders of the link table (same as the items, reversed, rotated) with 0..3 bones per node: every ordered pair of body ids whose start node has a next sibling"
+//@desc the matrices returned between two body ids are the named 4x3 matrices stored along the parent chain from the start node up to (not including) the target, or up to and including the root when the target is not an ancestor; names and matrices are the stored ones, in chain order; equal ids yield nothing
+#[test]
+fn native_pbd_chain() {
+    let mut cases = 0u64;
+    let m = usize::MAX;
+    let forests: Vec<Vec<usize>> = vec![vec![m], vec![m, 0, 0, 1, 1], vec![m, 0, 1, 2, 3, 4, 5], vec![m, 0, 0, m, 3, 3, 4]];
+    for parents in forests.iter() {
+        let n = parents.len();
+        for order in 0..3usize {
+            let perm: Vec<usize> = (0..n).map(|i| match order { 0 => i, 1 => n - 1 - i, _ => (i + 2) % n }).collect();
+            let nbones: Vec<usize> = (0..n).map(|i| (i + order) % 4).collect();
+            let (nodes, links) = npb_forest(parents, &perm, &nbones);
+            let pbd = PreBoneDeformer::from_existing(&npb_file(&nodes, &links)).expect("a well-formed deformer parses");
+            for from in 0..n { for to in 0..n {
+                let got = pbd.get_deform_matrices(nodes[from].body_id, nodes[to].body_id);
+                if from == to { assert!(got.is_none(), "equal body ids yield nothing"); cases += 1; continue; }
+                if links[perm[from]].next_sibling == -1 { continue; } // undocumented case, left unconstrained by the property
+                let mut want: Vec<(String, [f32; 12])> = vec![]; let mut cur = from;
+                loop { want.extend(nodes[cur].bones.iter().cloned()); if parents[cur] == m { break; } cur = parents[cur]; if cur == to { break; } }
+                let got: Vec<(String, [f32; 12])> = got.expect("a start node with a sibling link yields matrices").bones.iter().map(|b| (b.name.clone(), b.deform)).collect();
+                assert_eq!(got, want, "chain from {} to {} (forest of {n}, link order {order})", nodes[from].body_id, nodes[to].body_id);
+                cases += 1;
+            } }
+        }
+    }
+    println!("NATIVE native_pbd_chain cases={cases}");
+}
+
+//@unit props=C18 label=B tier=quick native=1 fn=pbd::PreBoneDeformer::{from_existing,get_deform_matrices} bound="by execution: the 5-node two-level tree with a reversed link table: every truncation and 7 single-byte corruptions per byte of the item and link tables and of the first blob, each followed by get_deform_matrices for 6 pairs of ids, under a 10 s deadline per case; plus hand-made cyclic parent links (self-loop, 2-cycle, 3-cycle)"
+//@desc damaged deformers (truncated, any count, index, link or offset damaged, cyclic parent links) make parsing and the chain walk return None or a value - no panic, and no walk that never ends
+#[test]
+fn native_pbd_damaged_nopanic() {
+    let m = usize::MAX;
+    let parents = vec![m, 0, 0, 1, 1];
+    let perm: Vec<usize> = (0..5).map(|i| 4 - i).collect();
+    let (nodes, links) = npb_forest(&parents, &perm, &[1, 2, 0, 1, 2]);
+    let v = npb_file(&nodes, &links);
+    let walk = |b: &[u8]| { if let Some(p) = PreBoneDeformer::from_existing(b) { for (a, z) in [(401u16, 101u16), (301, 101), (201, 101), (501, 201), (101, 501), (401, 999)] { let _ = p.get_deform_matrices(a, z); } } };
+    let mut s = NativeSites::new();
+    let guarded = move |b: &[u8]| { let owned = b.to_vec(); native_with_deadline(10, "get_deform_matrices on a damaged deformer", move || walk(&owned)); };
+    // cyclic parent links first: the classic way to make the walk run for ever
+    for cyc in 0..3usize {
+        let (n2, mut l2) = npb_forest(&parents, &perm, &[1, 2, 0, 1, 2]);
+        match cyc { 0 => { l2[perm[3]].parent = perm[3] as i16; } 1 => { l2[perm[1]].parent = perm[3] as i16; } _ => { l2[perm[0]].parent = perm[3] as i16; } }
+        s.run(&guarded, &npb_file(&n2, &l2), &format!("cyclic parent links (variant {cyc})"));
+    }
+    let tables = 4 + 5 * 12 + 5 * 8;
+    s.sweep(&v, tables + 64, 7, &guarded);
+    s.finish("native_pbd_damaged_nopanic");
+}
